@@ -470,11 +470,24 @@ func TestVFC18Decoder(t *testing.T) {
 					res.violate(map[string]any{"check": "C18", "kind": "table_exceeds_limit"}, "decoder table larger than permitted", nil)
 					return
 				}
-				// diagnostic: table contents
-				var wantTab []map[string]any
-				json.Unmarshal(n["dtab"], &wantTab)
-				if len(wantTab) != len(d.dynTab.table.ents) {
-					res.Extra["table_length_divergences"] = 1
+				// the decoder's dynamic table after the step, newest first (RFC 7541 2.3.2, 4.4: an entry larger than the table empties it)
+				if derr == nil {
+					var wantTab []map[string]any
+					json.Unmarshal(n["dtab"], &wantTab)
+					gotTab := vfTable(&d.dynTab)
+					same := len(wantTab) == len(gotTab)
+					for i := 0; same && i < len(gotTab); i++ {
+						same = fmt.Sprint(wantTab[i]["n"]) == fmt.Sprint(gotTab[i]["n"]) && fmt.Sprint(wantTab[i]["v"]) == fmt.Sprint(gotTab[i]["v"])
+					}
+					if !same {
+						var names []string
+						for _, pe := range path[:si+1] {
+							names = append(names, pe.Action+string(vfJoinRaw(pe.Args)))
+						}
+						res.violate(map[string]any{"check": "C18", "kind": "decoder_table", "segmentation": mode / 2, "huffman": huff},
+							fmt.Sprintf("decoder on %v: dynamic table is %v, specification says %v", names, gotTab, wantTab), map[string]any{"reps": names})
+						return
+					}
 				}
 				if derr != nil {
 					break
